@@ -62,11 +62,11 @@ var typesAcceptableKinds = map[Type][]reflect.Kind{
 // must be a Go struct with exactly two fields, where one field's type
 // is in accordance with the Ion type which needs to be unmarshalled (list
 // of mapping between Go native types and Ion types below); and the other
-// field must be of type []string and tagged as `ion:",annotations"`.
+// field must be of type []SymbolToken and tagged as `ion:",annotations"`.
 //
 //     type foo struct {
 //         Value   int    // or interface{}
-//         AnyName []string `ion:",annotations"`
+//         AnyName []SymbolToken `ion:",annotations"`
 //     }
 //
 //     var val foo
@@ -914,7 +914,11 @@ func (d *Decoder) attachAnnotations(v reflect.Value) error {
 			if err != nil {
 				return err
 			}
-			subValue.Set(reflect.ValueOf(annotations))
+			annotationsValue := reflect.ValueOf(annotations)
+			if !annotationsValue.Type().AssignableTo(subValue.Type()) {
+				return fmt.Errorf("ion: '%v' is provided for annotations, it must be of type []SymbolToken", subValue.Type().String())
+			}
+			subValue.Set(annotationsValue)
 			break
 		}
 	}
